@@ -203,7 +203,7 @@ PROPS = {
                                         "seam R4: scan_select contract (unit c01_scan), select_in_word contract (Kani, C02)"],
         "assumptions": ["inputs of the builders: at most 2^30 nodes, text_len < 2^32 - 16, start positions non-decreasing and < text_len "
                         "(OpenPositions::build checks monotonicity and falls back to the dense Vec otherwise), ends <= text_len",
-                        "OpenPositions / EndPositions enum wrappers (a monotonicity test with iterator adapters, then a match) are not extracted",
+                        "OpenPositions / EndPositions enum wrappers ARE extracted (build chooses compact storage only under the builders' precondition, dense otherwise; get dispatches); the one-line monotonicity test `positions.windows(2).all(|w| w[0] <= w[1])` is a stub with that meaning; find_last_open_at_text_pos (reverse lookup, not named by the property) is not under contract",
                         "usize is 64 bits"],
     },
     "C04": {
